@@ -320,8 +320,10 @@ fn dgram() -> BoxedStrategy<Dgram> {
     let sample = (
         (prop_oneof![Just(1_700_000_000i64), any::<i64>()], prop_oneof![0i64..1_000_000, any::<i64>()]),
         offset_bits(),
-        prop_oneof![6 => Just(0i32), 1 => Just(1i32), 1 => Just(-1i32), 1 => any::<i32>()],
-        prop_oneof![3 => 0i32..=3, 1 => -1i32..=5, 1 => any::<i32>()],
+        prop_oneof![6 => Just(0i32), 1 => Just(1i32), 1 => Just(-1i32), 1 => any::<i32>(),
+            // non-zero values whose low byte (or low half) is zero: a reader that looks at one byte sees 0
+            1 => prop::sample::select(vec![0x100i32, 0x1_0000, 0x100_0000, i32::MIN, -256, 0x7fff_ff00, 0x00ff_0000])],
+        prop_oneof![3 => 0i32..=3, 1 => -1i32..=5, 1 => any::<i32>(), 1 => prop::sample::select(vec![0x100i32, 0x101, 0x102, 0x1_0001, i32::MIN, 0x7fff_ff02])],
         prop_oneof![3 => Just(0u32), 1 => any::<u32>()],
         prop_oneof![
             8 => Just(SOCK_MAGIC),
@@ -352,7 +354,7 @@ fn dgram() -> BoxedStrategy<Dgram> {
 impl Property for C40 {
     type Case = Case;
     const ID: &'static str = "C40";
-    const RULE: &'static str = "sequences of 1..6 datagrams sent over a real AF_UNIX datagram socket to the real SockSourceTask (fixed clock, recording SourceController): 40-byte gpsd sock_sample encodings with magic from {SOCK, SOCK±1, byte-swapped, bit flips, random}, pulse from {0, ±1, random}, offset from {small/large finite, ±0, subnormal, ±2^31 boundary, 1e300, NaN payloads, ±inf, random bits}, leap −1..5/random, then truncated or extended to 0..80 bytes, plus raw random byte strings of 0..80 bytes. After each datagram the runtime is run until idle and the number of new measurements must be 0 for every datagram that is not (size 40 ∧ magic ∧ pulse 0 ∧ finite offset), exactly 1 (receiver_ts = clock, sender−receiver = −offset ± 2 units, leap 0/1/2 mapped) for valid ones with |offset| < 2^31 s; a trailing valid sample must still be measured and the task must be alive. Non-trivial = at least one datagram with a decided expectation (distinct = distinct datagram sequence + clock)";
+    const RULE: &'static str = "sequences of 1..6 datagrams sent over a real AF_UNIX datagram socket to the real SockSourceTask (fixed clock, recording SourceController): 40-byte gpsd sock_sample encodings with magic from {SOCK, SOCK±1, byte-swapped, bit flips, random}, pulse from {0, ±1, random, non-zero multiples of 2^8 / 2^16 / 2^24}, offset from {small/large finite, ±0, subnormal, ±2^31 boundary, 1e300, NaN payloads, ±inf, random bits}, leap −1..5/random/values equal to 0..2 only in their low byte, then truncated or extended to 0..80 bytes, plus raw random byte strings of 0..80 bytes. After each datagram the runtime is run until idle and the number of new measurements must be 0 for every datagram that is not (size 40 ∧ magic ∧ pulse 0 ∧ finite offset), exactly 1 (receiver_ts = clock, sender−receiver = −offset ± 2 units, leap 0/1/2 mapped) for valid ones with |offset| < 2^31 s; a trailing valid sample must still be measured and the task must be alive. Non-trivial = at least one datagram with a decided expectation (distinct = distinct datagram sequence + clock)";
     const ASSUMPTIONS: &'static [&'static str] = &[
         "the clock given to the task never fails (a failing clock makes the daemon exit by design)",
         "valid samples whose finite offset does not fit ±2^31 s may or may not be used (the statement only forbids using invalid ones); the converse direction (valid => measured) is required only for |offset| < 2^31 s",
@@ -360,7 +362,7 @@ impl Property for C40 {
         "measurement content tolerance: 2 units of 2^-32 s (from_seconds scales the fraction by 2^32-1 and truncates)",
     ];
     const QUICK_CASES: u32 = 150_000;
-    const THOROUGH_CASES: u32 = 3_000_000;
+    const THOROUGH_CASES: u32 = 12_000_000;
 
     fn strategy(_tier: Tier) -> BoxedStrategy<Case> {
         (crate::gens::u64_interesting(), prop::collection::vec(dgram(), 1..=6))
